@@ -187,8 +187,22 @@ def check_kem_wrappers(rep, facts, spec, rule='R03.2'):
         ok = False
         if rt[0] == 'call' and rt[1] == 'dhkex::DhKeyExchange::derive_keypair' and rt[4]:
             sv = a.deref_val(rt[2][0], a.term_point(rt[3]))
-            ok = rt[4][2] == dhx and rt[4][4][-1:] == (kdf_ty,) and rt[2][1] == ('param', 1) and \
-                sv[0] == 'call' and sv[1] == 'util::kem_suite_id' and sv[4][4] == (kty,)
+            suite_ok = sv[0] == 'call' and sv[1] == 'util::kem_suite_id' and sv[4][4] == (kty,)
+            if not suite_ok:
+                # the same five bytes spelled out: "KEM" || I2OSP(this KEM's id, 2)
+                from .c02 import symbolic_bytes
+                sb = symbolic_bytes(sv)
+                if sb is not None and len(sb) == 5 and [x for x in sb[:3]] == [('c', c) for c in b'KEM']:
+                    hi, lo = sb[3], sb[4]
+                    kid = [k for k, v in rfc.KEMS.items() if v is spec][0]
+                    def byte_of(x, k):
+                        if x[0] == 'c':
+                            return x[1]
+                        if x[0] == 'be' and x[2] == k and x[3] == 2 and x[1][0] == 'const' and isinstance(x[1][2], int):
+                            return (x[1][2] >> (8 * (1 - k))) & 0xFF
+                        return None
+                    suite_ok = byte_of(hi, 0) == (kid >> 8) & 0xFF and byte_of(lo, 1) == kid & 0xFF
+            ok = rt[4][2] == dhx and rt[4][4][-1:] == (kdf_ty,) and rt[2][1] == ('param', 1) and suite_ok
         rep.check(ok, 'R03.3', a.body.key, 'derive-dispatch', pp(rt)[:200],
                   '<%s>::derive_keypair::<%s>(&kem_suite_id::<Self>(), ikm)' % (dhx, kdf_ty), where(a))
     a = get_an(facts, '<%s as kem::Kem>::sk_to_pk' % kty)
@@ -236,7 +250,14 @@ def check_x25519_derive(rep, facts, dhx, rule='R03.3'):
     ok = False
     if rt[0] == 'agg' and rt[1] == 'tuple' and len(rt[3]) == 2:
         skw, pkw = rt[3]
-        if skw[0] == 'agg' and pkw[0] == 'agg' and len(skw[3]) == 1 and len(pkw[3]) == 1:
+        if skw[0] == 'agg' and len(skw[3]) == 1 and pkw[0] == 'call' and pkw[1] == 'dhkex::DhKeyExchange::sk_to_pk' and pkw[4] and pkw[4][2] == dhx:
+            # pk through this group's own sk_to_pk (verified by `pk-of-sk`) applied to the private key being returned
+            sk = skw[3][0]
+            sk_ok = sk[0] == 'call' and sk[1] == 'core::convert::Into::into' and sk[4] and sk[4][4][1:] == ('x25519_dalek::StaticSecret',) and \
+                sk[2][0][0] == 'mem' and len(sk[2][0][3]) == 1 and sk[2][0][3][0][0] == a.term_point(xb)
+            src = a.deref_val(pkw[2][0], a.term_point(pkw[3]))
+            ok = sk_ok and strip_sites(src) == strip_sites(skw)
+        elif skw[0] == 'agg' and pkw[0] == 'agg' and len(skw[3]) == 1 and len(pkw[3]) == 1:
             sk, pk = skw[3][0], pkw[3][0]
             sk_ok = sk[0] == 'call' and sk[1] == 'core::convert::Into::into' and sk[4] and sk[4][4][1:] == ('x25519_dalek::StaticSecret',) and \
                 sk[2][0][0] == 'mem' and len(sk[2][0][3]) == 1 and sk[2][0][3][0][0] == a.term_point(xb)
